@@ -90,8 +90,10 @@ def _worker(args):
         for k, v in sim.faults.items():
             agg["faults"][k] = agg["faults"].get(k, 0) + v
         if res["key"] is not None:
-            agg["keys"].add(hashlib.blake2b(repr(res["key"]).encode("utf-8", "backslashreplace"),
-                                            digest_size=8).digest())
+            ks = res["key"] if isinstance(res["key"], (set, frozenset)) else (res["key"],)
+            for k1 in ks:
+                agg["keys"].add(hashlib.blake2b(repr(k1).encode("utf-8", "backslashreplace"),
+                                                digest_size=8).digest())
         if res["harness"]:
             if len(agg["harness"]) < 3:
                 agg["harness"].append({"run": run, "error": res["harness"], "plan": plan,
@@ -274,8 +276,11 @@ def cmd_check(cid: str, tier: str) -> int:
     viol: dict[str, dict] = {}
     h = hashlib.sha256()
     digests = []
+    late_new = 0
     for lo in sorted(results):
         a = results[lo]
+        if lo >= 0.9 * n_runs:
+            late_new += len(a["keys"] - tot["keys"])
         tot["runs"] += a["runs"]
         tot["steps"] += a["steps"]
         tot["tape_len"] += a["tape_len"]
@@ -370,6 +375,7 @@ def cmd_check(cid: str, tier: str) -> int:
             "fault_counts": dict(sorted(tot["faults"].items())),
             "probes": probes,
             "probes_at_zero": zero_probes,
+            "distinct_new_in_last_10pct_of_runs": late_new,
             "distinct_interleavings": len(tot["sched"]),
             "distinct_interleavings_measure": "distinct event-log digests (one per run: every "
                                               "pull/frame/write/read/fault/switch event with its arguments)",
